@@ -406,6 +406,13 @@ func finish(a *Agg, n int, start time.Time) int {
 	}
 	sort.Strings(sigs)
 	os.MkdirAll(filepath.Join(verifDir(), "replays"), 0o755)
+	// replay files of earlier runs of this property are stale (case indices
+	// belong to the workload version that wrote them)
+	if old, _ := filepath.Glob(filepath.Join(verifDir(), "replays", p.ID+"-*.json")); len(old) > 0 {
+		for _, f := range old {
+			os.Remove(f)
+		}
+	}
 	nviol := 0
 	var knownLines, violLines []string
 	for _, sig := range sigs {
